@@ -342,7 +342,7 @@ func (t *GzipPacked) UnmarshalTL(d *tl.Decoder) error {
 	}
 
 	// a packed vector is decoded with the hints given for the enclosing message
-	t.Obj, err = tl.DecodeUnknownObject(obj, d.ExpectedTypes()...)
+	t.Obj, err = d.DecodeNestedObject(obj)
 	if err != nil {
 		return errors.Wrap(err, "parsing gzipped object")
 	}
